@@ -37,6 +37,9 @@ def scope_consts(repo):
         raise ValueError("suspicious native type list %r" % natives)
     if not re.search(r"\bid\s*=>", blk):
         raise ValueError("catch-all arm of resolve_type_basic not found")
+    # every string pattern of the match must have been read as a native type (an arm of another shape fails closed)
+    if sorted(re.findall(r'"([^"]*)"\s*(?:\||=>)', blk)) != sorted(natives):
+        raise ValueError("resolve_type_basic: not every string pattern of the match was read as a native type")
     # the catch-all binds the upper-cased id; the class index and the tables are asked with it
     sites.append(("type_resolver::resolve_type_basic: class index asked with the folded id", bool(re.search(r"get_uri_for_class\(&id\.to_string\(\)\)", blk))))
 
